@@ -68,7 +68,12 @@ func chainFor(kind string) *pki.Chain {
 	if c, ok := chains[kind]; ok {
 		return c
 	}
-	c := pki.SimpleChain(kind, 0, 2, "c02"+kind)
+	// every leaf of this check carries the SAME subject key identifier (a CA may
+	// assign them as it likes): whatever is looked up by it must not be mistaken
+	// for the key itself
+	leaf := pki.LeafSpec(pki.K(kind, 0), "c02"+kind+"-leaf")
+	leaf.SKI = []byte("c02-shared-key-id-20b")
+	c := pki.MustBuild(leaf, pki.CASpec(pki.K("p256", 1), "c02"+kind+"-root"))
 	chains[kind] = c
 	return c
 }
@@ -223,6 +228,9 @@ func judgeCell(r *core.Run, c Cell) {
 	})
 	if p != nil {
 		r.Count("panicked", 1)
+		if expectAccept(c) {
+			r.Violation("diagonal-panicked:"+mtName(c.MT), c.desc()+": an envelope on the table's diagonal made the library panic: "+p.Value, c)
+		}
 		return
 	}
 	if strings.HasPrefix(c.Decl, "dupx-first") && !validForDeclared {
